@@ -112,9 +112,21 @@ def rare_values(repo, chk):
             else:
                 chk.bad('C13.1', 'R5', fn.site(), 'storage[(column, value)] += 1', 'no increment of the rare-value store found')
             continue
+        # local tallies: names bound to an empty Counter / defaultdict(int) in this function (a batch is counted there first and merged afterwards)
+        tallies = {n.targets[0].id for n in own_nodes(fn.node) if isinstance(n, ast.Assign) and len(n.targets) == 1 and isinstance(n.targets[0], ast.Name) and isinstance(n.value, ast.Call)
+                   and ast.unparse(n.value) in ('Counter()', 'collections.Counter()', 'defaultdict(int)', 'collections.defaultdict(int)')}
+        tallies |= local_aliases(fn, tallies) if tallies else set()
+
+        def over_tally(ch):
+            return ch[0] == 'call' and ch[1][0] == 'attr' and ch[1][2] == 'items' and ch[1][1][0] == 'name' and ch[1][1][1] in tallies
         for u, (chain, key, val, guard, _a, tgt) in incs:
             site = fn.site(u['node'])
             shown = ast.unparse(u['node'])
+            if len(chain) == 1 and over_tally(chain[0]):
+                # for pair, n in tally.items(): store[pair] += n  - the merge of a local tally that is also used for something else (otherwise it
+                # would have been fused with its counting loop before the rules run): how the tally was counted is not analysed by this rule
+                chk.unsure('C13.1c', 'R13', site, shown, f'the rare-value store is updated from the local tally `{chain[0][1][1][1]}`, which is used for more than this merge: the per-occurrence counting rules are not applied to it')
+                continue
             cols_ok = len(chain) == 2 and chain[0] in (E(f'{frame}.columns'), E(frame), E(f'list({frame}.columns)'))
             val_forms = [expected_term(m, f'{frame}[C]{sfx}', {'C': L0}) for sfx in ('.values', '', '.values.tolist()', '.tolist()', '.to_numpy()')]
             vals_ok = len(chain) == 2 and chain[1] in val_forms
@@ -166,6 +178,21 @@ def rare_values(repo, chk):
         for u, (chain, key, val, guard, a_, tgt) in adds:
             site = fn.site(u['node'])
             direct = len(chain) == 1 and chain[0] == E('GLOBAL_RARE_VALUE_STORAGE.items()') and a_ and a_[0] == K
+            # retired pairs drawn from the items of a local (per-batch) tally under a test of THAT count
+            src_chain = chain[0] if len(chain) == 1 else None
+            if src_chain is not None and src_chain[0] == 'name':
+                v_ = (res.env or {}).get(src_chain[1])
+                if v_ is not None and isinstance(v_, (ast.ListComp, ast.SetComp, ast.GeneratorExp)):
+                    src_chain = term_of(fn, v_, inline=False)
+            tally_src = None
+            if src_chain is not None and src_chain[0] in ('listcomp', 'setcomp', 'genexp') and len(src_chain[2]) == 1 and over_tally(src_chain[2][0][0]) and src_chain[2][0][1]:
+                tally_src = src_chain[2][0][0][1][1][1]
+            elif src_chain is not None and over_tally(src_chain) and guard is not None:
+                tally_src = src_chain[1][1][1]
+            if tally_src is not None:
+                chk.bad('C13.2a', 'R14', site, ast.unparse(u['node'])[:100], f'the pairs to retire are chosen from the per-batch tally `{tally_src}` by its count: a pair is retired only when it exceeds the bound within ONE batch; '
+                        'a pair that exceeds it across batches stays in the rare-value report, so the report depends on how the rows are split into batches')
+                continue
             via_list = len(chain) == 1 and coll_guard(chain[0])[0] and a_ and a_[0] == K
             if direct or via_list:
                 chk.ok('C13.1e', 'R5', site, ast.unparse(u['node']), 'retired keys are the keys of the store itself (same shape)')
